@@ -192,7 +192,10 @@ pub fn run(ctx: &Ctx) {
             if family_a(b) {
                 nonces.extend(ivs.iter().map(|iv| iv.to_vec()));
             }
-            for n in nonces {
+            for (ni, n) in nonces.into_iter().enumerate() {
+                // passwords around the hash block sizes too (a KDF front end that pre-hashes or truncates at the wrong
+                // threshold): 13, 64, 65, 128, 129 and 200 bytes in turn
+                let pass: Vec<u8> = match ni % 6 { 0 => pass.clone(), 1 => vec![b'k'; 64], 2 => vec![b'l'; 65], 3 => vec![b'm'; 128], 4 => vec![b'n'; 129], _ => vec![b'o'; 200] };
                 let salt = g.bytes(b.pw_param_off);
                 rep.evaluations += 1;
                 rep.model_evaluations += 1;
@@ -261,7 +264,7 @@ pub fn run(ctx: &Ctx) {
                         other => rep.violation(&format!("c07.siblings.{x}.pie"), format!("{} does not unwrap {}'s PIE blob: {:?}", q.name, p.name, other.map(|z| z.len())), json!({"text": w, "wk": hex::encode(&wk)})),
                     }
                 }
-                let pass = b"pw".to_vec();
+                for pass in [b"pw".to_vec(), vec![b'k'; 64], vec![b'l'; 65], vec![b'm'; 96], vec![b'n'; 128], vec![b'o'; 129], vec![b'p'; 200]] {
                 let params = crate::c05::cheap_params(p, &mut g);
                 rep.evaluations += 1;
                 if let Ok(w) = (p.pw_wrap)(kind, &pass, Some(&params), key) {
@@ -273,6 +276,7 @@ pub fn run(ctx: &Ctx) {
                         Err(e) if q.name == "v4-sodium" && e == "InvalidKey" && params.len() == 16 && params[12..16] != [0, 0, 0, 1] => rep.violation("c07.v4-sodium.pbkw.parallelism", format!("v4-sodium refuses (InvalidKey) {}'s PBKW blob with parallelism {}", p.name, u32::from_be_bytes(params[12..16].try_into().unwrap())), json!({"text": w, "pass": hex::encode(&pass)})),
                         other => rep.violation(&format!("c07.siblings.{x}.pbkw"), format!("{} does not unwrap {}'s PBKW blob: {:?}", q.name, p.name, other.map(|z| z.len())), json!({"text": w, "pass": hex::encode(&pass)})),
                     }
+                }
                 }
             }
             // many seals across the pair: a shared secret / coordinate with a leading zero byte (1 in 256) is
